@@ -155,6 +155,9 @@ func GenRequests(g *tape.Stream, fg *tape.Stream, s *Setup, p *Profile) [][]*Req
 			q.Query = "q=" + q.Name
 			if q.Method == "POST" || g.Intn(5) == 1 {
 				q.Body = "body-of-" + q.Name
+				if p.StagedPm > 0 {
+					q.Staged = g.Chance(p.StagedPm)
+				}
 			}
 			if g.Chance(p.ExtraPm) {
 				q.Hdr = append(q.Hdr, [2]string{"X-Extra", "1"})
@@ -286,7 +289,7 @@ func CloneForTwin(in [][]*Req) [][]*Req {
 	out := make([][]*Req, len(in))
 	for i := range in {
 		for _, r := range in[i] {
-			c := &Req{ID: r.ID, Name: r.Name, Chain: r.Chain, Body: r.Body, CtxErr: r.CtxErr, Host: r.Host, Method: r.Method, Path: r.Path, Query: r.Query, Hdr: r.Hdr, Progs: r.Progs, Rets: r.Rets,
+			c := &Req{ID: r.ID, Name: r.Name, Chain: r.Chain, Body: r.Body, CtxErr: r.CtxErr, Host: r.Host, Method: r.Method, Path: r.Path, Query: r.Query, Hdr: r.Hdr, Progs: r.Progs, Rets: r.Rets, Staged: r.Staged,
 				WPlan: r.WPlan, Flusher: r.Flusher, Hijacker: r.Hijacker, ReaderFrom: r.ReaderFrom, Tag: r.Tag}
 			c.PlannedCancel = r.PlannedCancel
 			if r.AsyncCancelAt >= 0 {
